@@ -236,7 +236,7 @@ static int do_call(const call_t * c) {
         num.special = c->special ? TRUE : FALSE;
         if (c->special) num.content.tag = c->tag; else num.content.value = c->d;
         num.unit = (scpi_unit_t) c->unit;
-        num.base = 10;
+        num.base = (c->special || (idx % 3)) ? 10 : ((idx % 9 == 0) ? 16 : (idx % 9 == 3) ? 8 : 2);      /* the base a #H / #Q / #B parameter leaves in the number: the text stays decimal */
         ret = SCPI_NumberToStr(&ctx, scpi_special_numbers_def, &num, (char *) buf, len);
     } else if (!strcmp(c->api, "dtostre")) {
         char * r = SCPI_dtostre(c->d, (char *) buf, len, (unsigned char) c->prec, (unsigned char) c->flags);
